@@ -268,6 +268,9 @@ impl Subscriber<St, Act> for SSub {
             None
         };
         w.ctx.ev(Ev::NotOut { sub: self.sub, act: a.id, read });
+        if let Some(g) = w.scn().actions[a.id as usize].signal {
+            w.ctx.gate(g).signal();
+        }
     }
     fn on_unsubscribe(&self) {
         self.w.ctx.ev(Ev::Unsub { sub: self.sub });
